@@ -181,25 +181,55 @@ bool_t ecpIsOnA(const word a[], const ec_o* ec, void* stack)
 	return E.ison_ret;
 }
 
-/* ---- belt-hash: transcript */
-static void h_rec(int kind, const void* p, size_t len)
+/* ---- belt-hash: transcript.  The state is opaque to the callers; the model keeps (instance id, number of steps) in its
+   first two words, so that a copy of a state (deterministic signing forks the hash state) carries its history */
+static void h_rec(int kind, const void* p, size_t len, void* state)
 {
-	int i = E.nh; size_t j;
+	int i = E.nh; size_t j; word* st = (word*)state;
 	REQ(i < ENV_MAX, "belt-hash: call count");
-	E.h_kind[i] = kind; E.h_ptr[i] = p; E.h_len[i] = len;
-	for (j = 0; j < SNAP; ++j) E.h_val[i][j] = (p != 0 && j < len) ? ((const octet*)p)[j] : 0;
+	E.h_kind[i] = kind; E.h_ptr[i] = p; E.h_len[i] = len; E.h_state[i] = state;
+	if (kind == H_START) st[0] = (word)++E.hid, st[1] = 0;
+	E.h_id[i] = st[0]; E.h_cnt[i] = st[1]; st[1] = st[1] + 1;
+	for (j = 0; j < SNAP; ++j) E.h_val[i][j] = (p != 0 && kind == H_STEPH && j < len) ? ((const octet*)p)[j] : 0;
 	E.nh = i + 1;
 }
+/* the size of a hash state is the callee's business: two words in this model (a 200-octet copy of opaque bytes inside the
+   state object makes the deterministic-signing queries intractable) */
+size_t beltHash_keep() { return 2 * sizeof(word); }
 void beltHashStart(void* state)
 {
-	REQ(FITS(state, beltHash_keep()), "beltHashStart: state of beltHash_keep octets inside the stack");
-	E.nh = 0; h_rec(H_START, 0, 0);
+	REQ(FITS(state, beltHash_keep()), "beltHashStart: state of beltHash_keep octets inside the state of the caller");
+	h_rec(H_START, 0, 0, state);
 }
-void beltHashStepH(const void* buf, size_t count, void* state) { REQ(count <= SNAP, "beltHashStepH: length"); REQ(__CPROVER_r_ok(buf, count), "beltHashStepH: buffer"); h_rec(H_STEPH, buf, count); }
-void beltHashStepG(octet hash[32], void* state) { h_rec(H_G, hash, 32); hv_octets(hash, 32); }
-void beltHashStepG2(octet hash[], size_t hash_len, void* state) { size_t j; REQ(hash_len <= 32, "beltHashStepG2: length"); h_rec(H_G2, hash, hash_len); hv_octets(hash, hash_len); for (j = 0; j < 32; ++j) E.h_out[j] = j < hash_len ? hash[j] : 0; }
-bool_t beltHashStepV(const octet hash[32], void* state) { h_rec(H_V, hash, 32); E.h_ret = nondet_int() ? TRUE : FALSE; return E.h_ret; }
-bool_t beltHashStepV2(const octet hash[], size_t hash_len, void* state) { REQ(hash_len <= 32, "beltHashStepV2: length"); REQ(__CPROVER_r_ok(hash, hash_len), "beltHashStepV2: buffer"); h_rec(H_V2, hash, hash_len); E.h_ret = nondet_int() ? TRUE : FALSE; return E.h_ret; }
+void beltHashStepH(const void* buf, size_t count, void* state) { REQ(count <= SNAP, "beltHashStepH: length"); REQ(__CPROVER_r_ok(buf, count), "beltHashStepH: buffer"); REQ(FITS(state, beltHash_keep()), "beltHashStepH: state"); h_rec(H_STEPH, buf, count, state); }
+void beltHashStepG(octet hash[32], void* state) { size_t j; REQ(FITS(state, beltHash_keep()), "beltHashStepG: state"); h_rec(H_G, hash, 32, state); hv_octets(hash, 32); for (j = 0; j < 32; ++j) E.h_out[j] = hash[j]; }
+void beltHashStepG2(octet hash[], size_t hash_len, void* state) { size_t j; REQ(hash_len <= 32, "beltHashStepG2: length"); REQ(FITS(state, beltHash_keep()), "beltHashStepG2: state"); h_rec(H_G2, hash, hash_len, state); hv_octets(hash, hash_len); for (j = 0; j < 32; ++j) E.h_out[j] = j < hash_len ? hash[j] : 0; }
+bool_t beltHashStepV(const octet hash[32], void* state) { h_rec(H_V, hash, 32, state); E.h_ret = nondet_int() ? TRUE : FALSE; return E.h_ret; }
+bool_t beltHashStepV2(const octet hash[], size_t hash_len, void* state) { REQ(hash_len <= 32, "beltHashStepV2: length"); REQ(__CPROVER_r_ok(hash, hash_len), "beltHashStepV2: buffer"); REQ(FITS(state, beltHash_keep()), "beltHashStepV2: state"); h_rec(H_V2, hash, hash_len, state); E.h_ret = nondet_int() ? TRUE : FALSE; return E.h_ret; }
+
+/* ---- belt-wbl (nonce derivation of deterministic signing): at most three encryptions, the third output is admissible */
+void beltWBLStart(void* state, const octet key[], size_t len)
+{
+	size_t j;
+	REQ(FITS(state, beltWBL_keep()), "beltWBLStart: state of beltWBL_keep octets inside the state of the caller");
+	REQ(len == 32 && __CPROVER_r_ok(key, 32), "beltWBLStart: 32-octet key");
+	E.wbl_key = key; E.wbl_len = len; for (j = 0; j < 32; ++j) E.wbl_keyval[j] = key[j];
+}
+void beltWBLStepE(void* buf, size_t count, void* state)
+{
+	int i = E.nwbl; size_t j; octet* b = (octet*)buf;
+	REQ(i < 3, "beltWBLStepE: call count (model bound)"); REQ(count == NO, "beltWBLStepE: 2l bits");
+	E.wbl_count[i] = count;
+	for (j = 0; j < NO; ++j) E.wbl_in[i][j] = b[j];
+	hv_octets(b, NO);
+	if (i == 2)
+	{
+		word w[NW]; size_t k; for (k = 0; k < NW; ++k) w[k] = ((word*)buf)[k];
+		__CPROVER_assume(!zero_(w, NW) && lt_(w, E.q, NW));
+	}
+	for (j = 0; j < NO; ++j) E.wbl_out[i][j] = b[j];
+	E.nwbl = i + 1;
+}
 
 /* ---- zzMul / zzMod: memory side + range of the remainder */
 void zzMul(word c[], const word a[], size_t n, const word b[], size_t m, void* stack)
